@@ -93,7 +93,7 @@ A8  == A6 \cup {32, 63}
 A10 == A8 \cup {195, 151}
 QByteArgs == {97, 10, 226, 186}
 TByteArgs == {97, 10, 63, 226, 128, 185, 186, 255}
-QRuneArgs == {97, 8249, 55296}
+QRuneArgs == {97, 8249, 55296, 233}          \* (233 = é: a two-byte rune below U+0100)
 TRuneArgs == {97, 10, 8249, 8250, 215, 128512, 55296, -1, 1114112}
 \* ... and runes that share bytes with the markers (º = C2 BA, ₺ = E2 82 BA end in the last byte of the end marker)
 \* or with the scanner's sentinel (a genuine U+FFFD = EF BF BD)
